@@ -159,10 +159,19 @@ mod verif_driver_assets {
                 if a.is_empty_or_negative() != nonpos { witness("c15_assets/is_empty_or_negative#postcondition", "is_empty_or_negative", format!("{v:?}({hv})"), format!("{}", a.is_empty_or_negative()), "<==> no amount is positive"); }
             }
             for w in &b {
+                // contains_some: zero entries are immaterial on both sides however the values were built
+                for (hv, a) in builds(v) {
+                    for (hw, c) in builds(w) {
+                        let want = w.iter().all(|y| *y == 0) || v.iter().zip(w).any(|(x, y)| *y != 0 && *x > 0);
+                        if a.contains_some(&c) != want {
+                            witness("c15_assets/contains_some#postcondition", "contains_some", format!("{v:?}({hv}) contains some of {w:?}({hw})"), format!("{}", a.contains_some(&c)), "true iff the requirement is empty or some required class is held with a positive amount");
+                        }
+                    }
+                }
                 // `contains` is exactly the component-wise >= order on non-negative amounts
                 if v.iter().chain(w.iter()).any(|x| *x < 0) { continue; }
-                for (hv, a) in builds(v).into_iter().take(4) {
-                    for (hw, c) in builds(w).into_iter().take(4) {
+                for (hv, a) in builds(v) {
+                    for (hw, c) in builds(w) {
                         n += 1;
                         let want = v.iter().zip(w).all(|(x, y)| x >= y);
                         if a.contains_total(&c) != want {
@@ -173,6 +182,7 @@ mod verif_driver_assets {
             }
         }
         println!("VERIF-CASES fn=contains_total n={n}");
+        println!("VERIF-CASES fn=contains_some n={n}");
         println!("VERIF-CASES fn=is_empty n={n}");
         println!("VERIF-CASES fn=is_empty_or_negative n={n}");
     }
